@@ -16,6 +16,7 @@ E_NO_DB = [[90105, "22000"]]
 E_NO_SCHEMA = [[90106, "22000"]]
 E_MISSING = [[2003, "42S02"], [2043, "02000"]]  # object does not exist / already exists (either pair)
 E_TABLE_MISSING = [[2003, "42S02"]]
+E_ANY: list[list[Any]] = [[None, None]]  # a ProgrammingError whose code the property does not fix
 
 
 class Err(Exception):
@@ -93,7 +94,7 @@ class Model:
         for k in kinds:
             if n in self.dbs[d][s][k]:
                 return k, self.dbs[d][s][k][n]
-        raise Err(E_MISSING, f"object {d}.{s}.{n} does not exist")
+        raise Err(E_TABLE_MISSING, f"object {d}.{s}.{n} does not exist")
 
     # ------------------------------------------------------------------ sessions
     def connect(self, sid: str, database: str | None, schema: str | None) -> dict[str, Any]:
@@ -113,10 +114,69 @@ class Model:
     def apply(self, sid: str, st: dict[str, Any]) -> dict[str, Any]:
         """Predict the outcome of statement st on session sid and move to the next state.
         On a predicted error nothing changes."""
+        sess = self.sessions[sid]
+        if sess.get("closed"):
+            return {"ok": False, "errs": [[250002, "08003"]], "cls": "DatabaseError", "why": "connection closed"}
+        t = st["t"]
+        if t in ("begin", "commit", "rollback"):
+            return self._txn(sid, t)
+        in_txn = sess.get("txn") is not None
+        saved = self.dbs
+        if in_txn:
+            self.dbs = sess["txn"]
+        backup = copy.deepcopy(self.dbs) if True else None
         try:
-            return getattr(self, "_" + st["t"])(sid, st)
+            return getattr(self, "_" + t)(sid, st)
         except Err as e:
-            return {"ok": False, "errs": e.errs, "why": e.why}
+            self.dbs = backup  # a failed statement changes nothing (also inside a transaction)
+            return {"ok": False, "errs": e.errs, "why": e.why, **({"anycode": True} if e.errs == E_ANY else {})}
+        finally:
+            if in_txn:
+                sess["txn"] = self.dbs
+                self.dbs = saved
+
+    def _txn(self, sid: str, t: str) -> dict[str, Any]:
+        """One writer transaction at a time (generator-enforced): commit publishes its private copy."""
+        sess = self.sessions[sid]
+        if t == "begin":
+            if sess.get("txn") is not None:
+                return {"ok": False, "errs": E_ANY, "anycode": True, "anyclass": True, "why": "nested BEGIN (property silent)"}
+            sess["txn"] = copy.deepcopy(self.dbs)
+            return {"ok": True, "rows": None, "rowcount": None}
+        if sess.get("txn") is None:
+            return self.status("Statement executed successfully.")
+        if t == "commit":
+            self.dbs = sess["txn"]
+        sess["txn"] = None
+        return {"ok": True, "rows": None, "rowcount": None}
+
+    def close(self, sid: str) -> None:
+        self.sessions[sid]["closed"] = True
+        self.sessions[sid]["txn"] = None
+
+    # ---- session variables ---------------------------------------------------------
+    def _set_var(self, sid: str, st: dict[str, Any]) -> dict[str, Any]:
+        self.sessions[sid]["vars"][st["name"].upper()] = st["value"]
+        return self.status("Statement executed successfully.")
+
+    def _unset_var(self, sid: str, st: dict[str, Any]) -> dict[str, Any]:
+        self.sessions[sid]["vars"].pop(st["name"].upper(), None)
+        return self.status("Statement executed successfully.")
+
+    def _select_var(self, sid: str, st: dict[str, Any]) -> dict[str, Any]:
+        v = self.sessions[sid]["vars"]
+        out = []
+        for n in st["names"]:
+            if n.upper() not in v:
+                raise Err(E_ANY, f"Session variable '${n.upper()}' does not exist")
+            out.append(v[n.upper()])
+        return {"ok": True, "rows": [out], "ordered": True, "rowcount": 1}
+
+    def _raw_fail(self, sid: str, st: dict[str, Any]) -> dict[str, Any]:
+        """A statement the generator built to fail for the stated reason; the model only knows the class."""
+        if st.get("needs_ctx"):
+            self.resolve(sid, st["needs_ctx"])
+        raise Err(st["errs"], st.get("why", "generated failure"))
 
     @staticmethod
     def status(text: str) -> dict[str, Any]:
